@@ -45,10 +45,13 @@ EXTENDS Naturals, Sequences, FiniteSets, TLC, Json
 CONSTANTS MaxPO,      \* positional-only parameters 0..MaxPO  (<= 2)
           MaxP,       \* positional-or-keyword parameters 0..MaxP (<= 2)
           MaxKO,      \* keyword-only parameters 0..MaxKO (<= 2)
+          VarParams,  \* BOOLEAN: signatures with *args / **kw are included
           MaxFree,    \* free variables 0..MaxFree (<= 3)
           Kinds,      \* subset of {"def","lambda","method","nested","loopdef","decorated"}
           Depth,      \* number of actions after the scenario is set up
-          Mode,       \* "bind": pre-converted, every binding;  "env": canonical bindings only;  "sim": everything
+          PreSet,     \* subset of BOOLEAN: TRUE = g is made right after the definitions, FALSE = by a Convert step
+          Mode,       \* "bind": every binding;  "env": two bindings only (minimal call, a rejected call);
+                      \* "sim": everything, for random behaviours (TLC -generate)
           MaxKw,      \* keyword arguments per call <= MaxKw
           Variant     \* "ok" (the code) | "bypos" (cells matched by position: a wrong design, for the self test)
 
@@ -59,7 +62,7 @@ FreeNames == <<"v0", "v1", "v2">>
 AllKinds  == {"def", "lambda", "method", "nested", "loopdef", "decorated"}
 ASSUME Kinds \subseteq AllKinds /\ MaxPO <= 2 /\ MaxP <= 2 /\ MaxKO <= 2 /\ MaxFree <= 3
 
-VARIABLES phase,   \* "sig" -> "env" -> "run"
+VARIABLES phase,   \* "sig" -> "env" -> "conv" -> "run"
           sc,      \* the scenario
           cellv,   \* cell id   -> value (0 = unassigned)
           objv,    \* object id -> number of appends
@@ -83,7 +86,7 @@ AgCell  == 99                                \* the cell of the injected ag__ mo
 (* ---- signatures ----------------------------------------------------------- *)
 Sigs == {s \in [npo : 0..MaxPO, np : 0..MaxP, va : BOOLEAN, nk : 0..MaxKO, vk : BOOLEAN,
                 nd : 0..(MaxPO + MaxP), kd : SUBSET (1..MaxKO)] :
-           s.nd <= s.npo + s.np /\ s.kd \subseteq 1..s.nk}
+           s.nd <= s.npo + s.np /\ s.kd \subseteq 1..s.nk /\ (~VarParams => ~s.va /\ ~s.vk)}
 NPos(s) == s.npo + s.np
 NDef(s) == s.nd + Cardinality(s.kd)
 PosParam(s, i) == [name |-> IF i <= s.npo THEN PONames[i] ELSE PNames[i - s.npo],
@@ -116,7 +119,7 @@ Names    == {FreeNames[j] : j \in 1..NFree}
 Role(n)  == sc.free[FreeIdx(n)].role
 Shared(n) == sc.free[FreeIdx(n)].sh
 Mutable(o) == LET s == o % 100 IN
-              CASE sc.dk = "list" -> TRUE [] sc.dk = "obj" -> FALSE [] OTHER -> s % 2 = 1
+              IF sc.dk = "list" THEN TRUE ELSE IF sc.dk = "obj" THEN FALSE ELSE s % 2 = 1
 
 (* ---- function objects ------------------------------------------------------ *)
 NoFn == [code |-> 0, globals |-> 0, bound |-> FALSE, cells |-> <<>>, defaults |-> <<>>, kwdefaults |-> <<>>,
@@ -183,25 +186,28 @@ DefaultObj(fn, p) == IF p.kind = "kwonly" THEN fn.kwdefaults[p.name] ELSE fn.def
 NoObs == [exc |-> "", how |-> <<>>, spill |-> 0, extra |-> {}, reads |-> <<>>, glob |-> 0, name |-> "", val |-> 0]
 ReadNames(fn) == SelectSeq(OrigFreevars, LAMBDA n : Role(n) # "d" /\ n \in DOMAIN fn.cells)
 
-(* outcome of calling fn with (npos positional, keywords kws); cmd # "" asks the body to rebind cmd to val *)
-Outcome(fn, npos, kws, dup, cmd, val) ==
+(* outcome of calling fn with (npos positional, keywords kws) in the heap (cv, ov, gv);                     *)
+(* cmd # "" asks the body to rebind the free variable cmd to val.  Order of the body: append to every       *)
+(* mutable default that was used, the requested nonlocal write, read the free variables, read the global.   *)
+OutcomeIn(fn, npos, kws, dup, cmd, val, cv, ov, gv) ==
   LET ps    == CallParams(fn)
       b     == Bind(ps, npos + SelfArgs, kws, dup)
-  IN IF ~b.ok THEN [obs |-> [NoObs EXCEPT !.exc = "TypeError"], cellv |-> cellv, objv |-> objv]
+  IN IF ~b.ok THEN [obs |-> [NoObs EXCEPT !.exc = "TypeError"], cellv |-> cv, objv |-> ov]
      ELSE
        LET used  == {DefaultObj(fn, ps[i]) : i \in {j \in 1..Len(ps) : b.how[j] = "dflt"}}
-           objv2 == [o \in ObjIds |-> IF o \in used /\ Mutable(o) THEN objv[o] + 1 ELSE objv[o]]
-           cellv2 == IF cmd # "" THEN [cellv EXCEPT ![fn.cells[cmd]] = val] ELSE cellv
+           ov2   == [o \in ObjIds |-> IF o \in used /\ Mutable(o) THEN ov[o] + 1 ELSE ov[o]]
+           cv2   == IF cmd # "" THEN [cv EXCEPT ![fn.cells[cmd]] = val] ELSE cv
            rn    == ReadNames(fn)
-           unb   == {j \in 1..Len(rn) : cellv2[fn.cells[rn[j]]] = 0}
+           unb   == {j \in 1..Len(rn) : cv2[fn.cells[rn[j]]] = 0}
        IN IF unb # {}
           THEN [obs |-> [NoObs EXCEPT !.exc = "NameError",
                                       !.name = rn[CHOOSE j \in unb : \A k \in unb : j <= k]],
-                cellv |-> cellv2, objv |-> objv2]
+                cellv |-> cv2, objv |-> ov2]
           ELSE [obs |-> [NoObs EXCEPT !.how = b.how, !.spill = b.spill, !.extra = b.extra,
-                                      !.reads = [j \in 1..Len(rn) |-> cellv2[fn.cells[rn[j]]]],
-                                      !.glob = globv[fn.globals]],
-                cellv |-> cellv2, objv |-> objv2]
+                                      !.reads = [j \in 1..Len(rn) |-> cv2[fn.cells[rn[j]]]],
+                                      !.glob = gv[fn.globals]],
+                cellv |-> cv2, objv |-> ov2]
+Outcome(fn, npos, kws, dup, cmd, val) == OutcomeIn(fn, npos, kws, dup, cmd, val, cellv, objv, globv)
 
 (* ---- call shapes ---------------------------------------------------------------- *)
 PlainParams == Params(sc.sig)
@@ -212,9 +218,9 @@ ReqKw       == {KONames[j] : j \in (1..sc.sig.nk) \ sc.sig.kd}
 AllKw       == {KONames[j] : j \in 1..sc.sig.nk}
 PNamesUsed  == {PNames[j] : j \in 1..sc.sig.np}
 B(np, kws, dup) == [npos |-> np, kws |-> kws, dup |-> dup]
-MinCall     == B(ReqPos, ReqKw, FALSE)
-CanonCalls  == {MinCall,                                             \* defaults used wherever possible
-                B(NPos(sc.sig), AllKw, FALSE),                       \* everything passed
+MinCall     == B(ReqPos, ReqKw, FALSE)                               \* defaults used wherever possible
+FullCall    == B(NPos(sc.sig), AllKw, FALSE)                         \* everything passed: accepted, no effect
+CanonCalls  == {MinCall, FullCall,
                 B(sc.sig.npo, PNamesUsed \cup AllKw, FALSE),         \* by keyword wherever allowed
                 B(NPos(sc.sig) + 2, ReqKw, FALSE),                   \* spill into *args / too many
                 B(ReqPos, ReqKw \cup {"zz"}, FALSE),                 \* spill into **kw / unexpected
@@ -224,7 +230,9 @@ CanonCalls  == {MinCall,                                             \* defaults
 AllCalls    == {B(np, kws, dup) : np \in 0..(NPos(sc.sig) + 2),
                                   kws \in {k \in SUBSET KwUniverse : Cardinality(k) <= MaxKw},
                                   dup \in BOOLEAN} \ {B(np, {}, TRUE) : np \in 0..(NPos(sc.sig) + 2)}
-Calls       == IF Mode = "env" THEN CanonCalls ELSE AllCalls
+Accepted    == {b \in AllCalls : Bind(CallParams(F(1)), b.npos + SelfArgs, b.kws, b.dup).ok}
+EnvCalls    == {MinCall, B(NPos(sc.sig) + 2, ReqKw \cup {"zz"}, FALSE)}
+Calls       == IF Mode = "env" THEN EnvCalls ELSE AllCalls
 
 (* ---- state machine ----------------------------------------------------------------- *)
 (* compact encodings for the printed behaviours: the heap as one sequence of integers                       *)
@@ -237,9 +245,13 @@ PostOf(cv, ov, gv, cn) ==
         \o <<gv[1], deco[1], deco[2], evals[1], evals[2], B2I(cn[1]), B2I(cn[2])>>
 Post == PostOf(cellv, objv, globv, conv)
 ObsOut(o) == <<o.exc, o.how, o.spill, o.extra, o.reads, o.glob, o.name, o.val>>
-(* a step: <<act, side, inst, npos, kws, dup, name, how, val, expected observation, expected heap after it>> *)
-Step(act, side, i, b, name, how, val, obs, post) ==
-        <<act, side, i, b.npos, b.kws, b.dup, name, how, val, ObsOut(obs), post>>
+(* what the effect-free full call must return on every side of instance i in the heap (cv, ov, gv) *)
+Probes(cv, ov, gv) == [i \in 1..NI |->
+        ObsOut(OutcomeIn(F(i), FullCall.npos, FullCall.kws, FALSE, "", 0, cv, ov, gv).obs)]
+(* a step: <<act, side, inst, npos, kws, dup, name, how, val, expected observation, expected heap after it, *)
+(*           expected result of the probe call per instance>>                                               *)
+Step(act, side, i, b, name, how, val, obs, cv, ov, gv, cn) ==
+        <<act, side, i, b.npos, b.kws, b.dup, name, how, val, ObsOut(obs), PostOf(cv, ov, gv, cn), Probes(cv, ov, gv)>>
 NoB == B(0, {}, FALSE)
 Fresh == 100 + Len(hist) + 1
 
@@ -257,7 +269,7 @@ PickSig == /\ phase = "sig"
 
 PickEnv == /\ phase = "env"
            /\ \E kind \in Kinds : \E fs \in FreeShapes(kind) :
-              \E pre \in (CASE Mode = "bind" -> {TRUE} [] Mode = "env" -> {FALSE} [] OTHER -> BOOLEAN) :
+              \E pre \in PreSet :
                 LET ni == IF kind = "loopdef" THEN 2 ELSE 1 IN
                 /\ sc' = [sc EXCEPT !.kind = kind, !.free = fs, !.pre = pre]
                 /\ cellv' = [c \in CellIds |->
@@ -282,14 +294,14 @@ Live(side, i) == i <= NI /\ (side = "g" => conv[i])
 Convert(i) == /\ Running /\ i <= NI /\ ~conv[i]
               /\ gfn' = [gfn EXCEPT ![i] = Instantiate(F(i))]
               /\ conv' = [conv EXCEPT ![i] = TRUE]
-              /\ hist' = Append(hist, Step("convert", "g", i, NoB, "", "", 0, NoObs, PostOf(cellv, objv, globv, conv')))
+              /\ hist' = Append(hist, Step("convert", "g", i, NoB, "", "", 0, NoObs, cellv, objv, globv, conv'))
               /\ UNCHANGED <<phase, sc, cellv, objv, globv, deco, evals>>
 
 Call(side, i, b) ==
   /\ Running /\ Live(side, i) /\ side \in {"f", "g", "c"}
   /\ LET o == Outcome(Fn(side, i), b.npos, b.kws, b.dup, "", 0) IN
      /\ cellv' = o.cellv /\ objv' = o.objv
-     /\ hist' = Append(hist, Step("call", side, i, b, "", "", 0, o.obs, PostOf(o.cellv, o.objv, globv, conv)))
+     /\ hist' = Append(hist, Step("call", side, i, b, "", "", 0, o.obs, o.cellv, o.objv, globv, conv))
   /\ UNCHANGED <<phase, sc, globv, deco, evals, conv, gfn>>
 
 (* a nonlocal write made by the body (how = "call": the minimal call with the rebind request), through the *)
@@ -299,24 +311,23 @@ Rebind(side, i, n, how) ==
   /\ \/ /\ how = "call" /\ side \in {"f", "g", "c"} /\ Role(n) = "w"
         /\ LET o == Outcome(Fn(side, i), MinCall.npos, MinCall.kws, FALSE, n, Fresh) IN
            /\ cellv' = o.cellv /\ objv' = o.objv
-           /\ hist' = Append(hist, Step("rebind", side, i, MinCall, n, how, Fresh, o.obs,
-                                        PostOf(o.cellv, o.objv, globv, conv)))
+           /\ hist' = Append(hist, Step("rebind", side, i, MinCall, n, how, Fresh, o.obs, o.cellv, o.objv, globv, conv))
      \/ /\ how = "cell" /\ side \in {"f", "g"} /\ n \in DOMAIN Fn(side, i).cells
         /\ cellv' = [cellv EXCEPT ![Fn(side, i).cells[n]] = Fresh] /\ objv' = objv
-        /\ hist' = Append(hist, Step("rebind", side, i, NoB, n, how, Fresh, NoObs, PostOf(cellv', objv, globv, conv)))
+        /\ hist' = Append(hist, Step("rebind", side, i, NoB, n, how, Fresh, NoObs, cellv', objv, globv, conv))
      \/ /\ how = "sib" /\ side = "sib" /\ Shared(n)
         /\ cellv' = [cellv EXCEPT ![CellId(i, FreeIdx(n))] = Fresh] /\ objv' = objv
-        /\ hist' = Append(hist, Step("rebind", side, i, NoB, n, how, Fresh, NoObs, PostOf(cellv', objv, globv, conv)))
+        /\ hist' = Append(hist, Step("rebind", side, i, NoB, n, how, Fresh, NoObs, cellv', objv, globv, conv))
   /\ UNCHANGED <<phase, sc, globv, deco, evals, conv, gfn>>
 
 ReadBack(side, i, n) ==
   /\ Running /\ Live(side, i) /\ n \in Names
-  /\ \/ side \in {"f", "g"} /\ n \in DOMAIN Fn(side, i).cells
+  /\ \/ /\ side \in {"f", "g"} /\ n \in DOMAIN Fn(side, i).cells
         /\ hist' = Append(hist, Step("readback", side, i, NoB, n, "cell", 0,
-                                     [NoObs EXCEPT !.val = cellv[Fn(side, i).cells[n]]], Post))
-     \/ side = "sib" /\ Shared(n)
+                                     [NoObs EXCEPT !.val = cellv[Fn(side, i).cells[n]]], cellv, objv, globv, conv))
+     \/ /\ side = "sib" /\ Shared(n)
         /\ hist' = Append(hist, Step("readback", side, i, NoB, n, "sib", 0,
-                                     [NoObs EXCEPT !.val = cellv[CellId(i, FreeIdx(n))]], Post))
+                                     [NoObs EXCEPT !.val = cellv[CellId(i, FreeIdx(n))]], cellv, objv, globv, conv))
   /\ UNCHANGED <<phase, sc, cellv, objv, globv, deco, evals, conv, gfn>>
 
 (* append to a mutable default through the function object's __defaults__ / __kwdefaults__ *)
@@ -324,18 +335,23 @@ SlotObjs(fn) == {fn.defaults[j] : j \in DOMAIN fn.defaults} \cup {fn.kwdefaults[
 MutateDefault(side, i, o) ==
   /\ Running /\ Live(side, i) /\ side \in {"f", "g"} /\ o \in SlotObjs(Fn(side, i)) /\ Mutable(o)
   /\ objv' = [objv EXCEPT ![o] = @ + 1]
-  /\ hist' = Append(hist, Step("mutate", side, i, NoB, "", "", o % 100, NoObs, PostOf(cellv, objv', globv, conv)))
+  /\ hist' = Append(hist, Step("mutate", side, i, NoB, "", "", o % 100, NoObs, cellv, objv', globv, conv))
   /\ UNCHANGED <<phase, sc, cellv, globv, deco, evals, conv, gfn>>
 
 RebindGlobal(side, i) ==
   /\ Running /\ Live(side, i) /\ side \in {"f", "g"}
   /\ globv' = [globv EXCEPT ![Fn(side, i).globals] = Fresh]
-  /\ hist' = Append(hist, Step("global", side, i, NoB, "G", "", Fresh, NoObs, PostOf(cellv, objv, globv', conv)))
+  /\ hist' = Append(hist, Step("global", side, i, NoB, "G", "", Fresh, NoObs, cellv, objv, globv', conv))
   /\ UNCHANGED <<phase, sc, cellv, objv, deco, evals, conv, gfn>>
 
 Sides == {"f", "g", "c", "sib"}
+CallAct == IF Mode = "sim"                       \* random behaviours: one third canonical, one third accepted,
+           THEN \/ \E b \in CanonCalls : \E side \in {"f", "g", "c"}, i \in 1..NI : Call(side, i, b)   \* one third any
+                \/ \E b \in Accepted   : \E side \in {"f", "g", "c"}, i \in 1..NI : Call(side, i, b)
+                \/ \E b \in AllCalls   : \E side \in {"f", "g", "c"}, i \in 1..NI : Call(side, i, b)
+           ELSE \E b \in Calls : \E side \in {"f", "g", "c"}, i \in 1..NI : Call(side, i, b)
 Act == \/ \E i \in 1..NI : Convert(i)
-       \/ \E b \in Calls : \E side \in {"f", "g", "c"}, i \in 1..NI : Call(side, i, b)
+       \/ CallAct
        \/ \E side \in Sides, i \in 1..NI, n \in Names, how \in {"call", "cell", "sib"} : Rebind(side, i, n, how)
        \/ \E side \in Sides, i \in 1..NI, n \in Names : ReadBack(side, i, n)
        \/ \E side \in {"f", "g"}, i \in 1..NI, o \in ObjIds : MutateDefault(side, i, o)
@@ -356,7 +372,7 @@ Agree == \A i \in Converted :
            /\ \A n \in DOMAIN f.cells : n \notin DOMAIN g.cells => Role(n) = "d"
 (* every call has the same outcome (result, exception, effect on the heap) on f, g and the convert() wrapper *)
 LastAct == IF hist = <<>> THEN "" ELSE hist[Len(hist)][1]
-AgreeCalls == \A i \in Converted : LastAct # "call" => \A b \in Calls :
+AgreeCalls == \A i \in Converted : LastAct # "call" => \A b \in (IF Mode = "bind" THEN AllCalls ELSE CanonCalls) :
                 /\ Outcome(F(i), b.npos, b.kws, b.dup, "", 0) = Outcome(gfn[i], b.npos, b.kws, b.dup, "", 0)
                 /\ Outcome(F(i), b.npos, b.kws, b.dup, "", 0) = Outcome(Fn("c", i), b.npos, b.kws, b.dup, "", 0)
 (* functions made from one code object keep their own cells and defaults *)
@@ -372,7 +388,8 @@ Key   == <<sc.sig.npo, sc.sig.np, B2I(sc.sig.va), sc.sig.nk, B2I(sc.sig.vk), sc.
            [j \in 1..NFree |-> <<sc.free[j].role, B2I(sc.free[j].asg), B2I(sc.free[j].sh)>>], B2I(sc.pre)>>
 ScOut == [npo |-> sc.sig.npo, np |-> sc.sig.np, va |-> sc.sig.va, nk |-> sc.sig.nk, vk |-> sc.sig.vk,
           nd |-> sc.sig.nd, kd |-> sc.sig.kd, dk |-> sc.dk, kind |-> sc.kind, free |-> sc.free, pre |-> sc.pre,
-          ni |-> NI, params |-> Params(sc.sig), gcells |-> DOMAIN Instantiate(F(1)).cells, post |-> Post]
+          ni |-> NI, params |-> Params(sc.sig), gcells |-> DOMAIN Instantiate(F(1)).cells, post |-> Post,
+          probes |-> Probes(cellv, objv, globv)]
 ReportSc == (phase = "run" /\ hist = <<>>) => PrintT(ToJson([k |-> Key, sc |-> ScOut]))
 Report   == (phase = "run" /\ Len(hist) = Depth) => PrintT(ToJson([k |-> Key, h |-> hist]))
 =============================================================================
